@@ -1,0 +1,123 @@
+//go:build verif
+
+package leanhelix
+
+import (
+	"context"
+	"github.com/orbs-network/lean-helix-go/services/interfaces"
+	"github.com/orbs-network/lean-helix-go/verifhook"
+)
+
+// verifWorkerState is the per-worker stash of the select-control hook (H1 in /verif/DESIGN.md).
+// It survives a restart of Run() by the supervisor.
+type verifWorkerState struct {
+	ctrl      verifhook.WorkerController
+	parent    context.Context
+	cancel    context.CancelFunc
+	messages  []*interfaces.ConsensusRawMessage
+	election  *interfaces.ElectionTrigger
+	sync      *blockWithProof
+	installed bool
+}
+
+// verifWorkerCtx gives the worker a context that only the hook cancels, so that the moment the worker
+// observes shutdown is a harness decision like any other select case.
+func (lh *WorkerLoop) verifWorkerCtx(ctx context.Context) context.Context {
+	f := verifhook.ControllerFor
+	if f == nil {
+		return ctx
+	}
+	ctrl := f(lh.config)
+	if ctrl == nil {
+		return ctx
+	}
+	s := &lh.verif
+	s.ctrl = ctrl
+	s.parent = ctx
+	s.installed = true
+	child, cancel := context.WithCancel(context.Background())
+	s.cancel = cancel
+	return child
+}
+
+func (s *verifWorkerState) pending() verifhook.Pending {
+	return verifhook.Pending{
+		Messages: len(s.messages),
+		Election: s.election != nil,
+		Sync:     s.sync != nil,
+		Done:     s.parent.Err() != nil,
+	}
+}
+
+// drain moves everything that is ready in the worker's input channels into the stash.
+func (lh *WorkerLoop) verifDrain() {
+	s := &lh.verif
+	for {
+		select {
+		case m := <-lh.MessagesChannel:
+			s.messages = append(s.messages, m)
+		case t := <-lh.electionChannel:
+			s.election = t // single slot: newer replaces older, as the main loop does
+		case u := <-lh.workerUpdateStateChannel:
+			s.sync = u
+		default:
+			return
+		}
+	}
+}
+
+// verifAtSelect runs at the top of every iteration of the worker loop. When it returns, exactly one case
+// of the real select is ready.
+func (lh *WorkerLoop) verifAtSelect(ctx context.Context) {
+	s := &lh.verif
+	if !s.installed {
+		return
+	}
+	for {
+		s.ctrl.Park()
+		lh.verifDrain()
+		p := s.pending()
+		if p.Empty() {
+			s.ctrl.Idle()
+			select {
+			case m := <-lh.MessagesChannel:
+				s.messages = append(s.messages, m)
+			case t := <-lh.electionChannel:
+				s.election = t
+			case u := <-lh.workerUpdateStateChannel:
+				s.sync = u
+			case <-s.parent.Done():
+			}
+			continue
+		}
+		switch s.ctrl.Choose(p) {
+		case verifhook.ChooseMessage:
+			if len(s.messages) == 0 {
+				panic("verif: message chosen but none pending")
+			}
+			m := s.messages[0]
+			s.messages = s.messages[1:]
+			lh.MessagesChannel <- m
+		case verifhook.ChooseElection:
+			if s.election == nil {
+				panic("verif: election chosen but none pending")
+			}
+			t := s.election
+			s.election = nil
+			lh.electionChannel <- t
+		case verifhook.ChooseSync:
+			if s.sync == nil {
+				panic("verif: sync chosen but none pending")
+			}
+			u := s.sync
+			s.sync = nil
+			lh.workerUpdateStateChannel <- u
+		case verifhook.ChooseDone:
+			if s.parent.Err() == nil {
+				panic("verif: done chosen but parent context is alive")
+			}
+			s.cancel()
+		}
+		return
+	}
+}
